@@ -31,7 +31,7 @@ EXTENDS Integers, Sequences, TLC, Json
 
 CONSTANT WorldFile
 W == JsonDeserialize(WorldFile)
-INSTANCE Peg WITH G <- W.grammar, Checked <- FALSE
+INSTANCE Peg WITH G <- W.grammar, Checked <- FALSE, Traced <- FALSE
 
 Fail == <<"<fail>">>
 IsFail(s) == Len(s) = 1 /\ s[1] = "<fail>"
